@@ -1,16 +1,28 @@
 (** Correspondence for C01: identifiers read back from the generated Go files. *)
-From Coq Require Import List String Bool Arith NArith.
-From GM Require Import Base.Result Facts.GoFacts Model.Enums Model.Names Model.GoScope.
+From Coq Require Import List String Ascii Bool Arith NArith.
+From GM Require Import Base.Result Base.StrOrd Facts.GoFacts Facts.Ana Model.Enums Model.Names Model.GoScope Model.GoUnionsGen.
 Import ListNotations.
 Local Open Scope string_scope.
 
+(** the gounions declarations read back one by one (harness/c01g.go) *)
+Record gobs := {
+  go_id : string; go_types : list string; go_consts : list string;
+  go_methods : list (string * string);
+  go_wrappers : list string                     (* wrapper types mentioned, sorted, without repetition *)
+}.
+Inductive gu_obs := GuOk (l : list gobs) | GuDiag | GuCrash | GuSkip.
+
 Record c01_case := {
+  c1_ana : ana_obs;
+  c1_gu : gu_obs;
   c1_prog : prog;
   c1_enums : list enum;                          (* hook table *)
   c1_choices : list (string * list string);      (* randdata: enum id -> elements of its choix literal *)
   c1_receivers : list (string * string);         (* (generator, receiver type local name) of every method declared *)
   c1_declared : list (string * list string)      (* generator -> top-level identifiers declared by the file *)
 }.
+
+Definition root_pkg (pr : prog) : option gpkg := find_pkg (pr_root pr) (pr_pkgs pr).
 
 Fixpoint strs_eqb (a b : list string) : bool :=
   match a, b with
@@ -19,14 +31,62 @@ Fixpoint strs_eqb (a b : list string) : bool :=
   | _, _ => false
   end.
 
-Definition root_pkg (pr : prog) : option gpkg := find_pkg (pr_root pr) (pr_pkgs pr).
+Fixpoint pairs_eqb (a b : list (string * string)) : bool :=
+  match a, b with
+  | [], [] => true
+  | (x1, x2) :: a', (y1, y2) :: b' => String.eqb x1 y1 && String.eqb x2 y2 && pairs_eqb a' b'
+  | _, _ => false
+  end.
 
-Definition chk_model (c : c01_case) : bool :=
+Definition project (d : gdecl) : gobs :=
+  {| go_id := gd_id d; go_types := gd_types d; go_consts := gd_consts d; go_methods := gd_methods d;
+     go_wrappers := sort_str (dedup_str (map wr_text (gd_wrappers d))) |}.
+
+Definition gobs_eqb (a b : gobs) : bool :=
+  String.eqb (go_id a) (go_id b) && strs_eqb (go_types a) (go_types b) && strs_eqb (go_consts a) (go_consts b)
+  && pairs_eqb (go_methods a) (go_methods b) && strs_eqb (go_wrappers a) (go_wrappers b).
+
+Fixpoint gobs_list_eqb (a b : list gobs) : bool :=
+  match a, b with
+  | [], [] => true
+  | x :: a', y :: b' => gobs_eqb x y && gobs_list_eqb a' b'
+  | _, _ => false
+  end.
+
+Definition gu_model (c : c01_case) : result (list gdecl) :=
+  gounions (c1_prog c) (ao_nodes (c1_ana c)) true (ao_source (c1_ana c)).
+
+(** the traversal model reproduces the declaration list of the real generator, refusals included *)
+Definition gu_model_ok (c : c01_case) : bool :=
+  match c1_gu c, gu_model c with
+  | GuSkip, _ => true
+  | GuOk l, Ok ds => gobs_list_eqb (map project ds) l
+  | GuDiag, Diag _ => true
+  | GuCrash, Crash _ => true
+  | _, _ => false
+  end.
+
+Fixpoint has_dot (s : string) : bool :=
+  match s with EmptyString => false | String c r => Ascii.eqb c "."%char || has_dot r end.
+
+(** the conclusion of the closure theorem on the observed list, under its premise: every wrapper mentioned
+    without a package is a type declared by the list *)
+Definition gu_prop_ok (c : c01_case) : bool :=
+  match c1_gu c with
+  | GuOk l =>
+      negb (structs_with_unions_local (c1_prog c) (ao_nodes (c1_ana c)))
+      || forallb (fun d => forallb (fun w => has_dot w || existsb (String.eqb w) (flat_map go_types l)) (go_wrappers d)) l
+  | _ => true
+  end.
+
+Definition chk_model0 (c : c01_case) : bool :=
   forallb (fun ec => match find (fun e => String.eqb (en_id e) (fst ec)) (c1_enums c) with
                      | Some e => strs_eqb (snd ec) (enum_choices (en_members e))
                      | None => false end) (c1_choices c).
 
-Definition chk_prop (c : c01_case) : bool :=
+Definition chk_model (c : c01_case) : bool := chk_model0 c && gu_model_ok c.
+
+Definition chk_prop0 (c : c01_case) : bool :=
   forallb (fun ec => valid_expr_list (snd ec)) (c1_choices c)
   && forallb (fun gr =>
        (* a type declared by the generated file itself, or a defined non-interface type of the target package *)
@@ -35,6 +95,8 @@ Definition chk_prop (c : c01_case) : bool :=
   && forallb (fun gd => match root_pkg (c1_prog c) with
                         | Some p => no_redeclaration (p_scope p) (snd gd)
                         | None => false end) (c1_declared c).
+
+Definition chk_prop (c : c01_case) : bool := chk_prop0 c && gu_prop_ok c.
 
 Section Generic.
   Context {A : Type} (chk : A -> bool).
